@@ -481,7 +481,13 @@ bus_registry_acquire_service (BusRegistry      *registry,
 
   limit = bus_context_get_max_services_per_connection (registry->context);
 
-  if (bus_connection_get_n_services_owned (connection) >= limit)
+  service = bus_registry_lookup (registry, service_name);
+
+  /* The limit is on the number of names a connection holds. A request
+   * for a name it already owns or is queued for does not add one (it
+   * only updates its flags or position), so it is not refused. */
+  if (bus_connection_get_n_services_owned (connection) >= limit &&
+      (service == NULL || !bus_service_owner_in_queue (service, connection)))
     {
       DBusError tmp_error;
 
@@ -499,8 +505,6 @@ bus_registry_acquire_service (BusRegistry      *registry,
       dbus_move_error (&tmp_error, error);
       goto out;
     }
-  
-  service = bus_registry_lookup (registry, service_name);
 
   if (service != NULL)
     {
